@@ -335,7 +335,6 @@ func (c *cTx) Fox() *Router {
 // Any attempt to write on the [ResponseWriter] will panic with the error [ErrDiscardedResponseWriter].
 func (c *cTx) Clone() Context {
 	cp := cTx{
-		rec:   c.rec,
 		req:   c.req.Clone(c.req.Context()),
 		fox:   c.fox,
 		route: c.route,
@@ -343,7 +342,25 @@ func (c *cTx) Clone() Context {
 		tsr:   c.tsr,
 	}
 
-	cp.rec.ResponseWriter = noopWriter{c.rec.Header().Clone()}
+	// The embedded recorder is only in use while the context serves a request. A context obtained from Lookup or
+	// CloneWith writes through the ResponseWriter it was given (if any), and its embedded recorder may still hold
+	// the state of a previous request, or nothing at all.
+	header := http.Header{}
+	if rec, ok := c.w.(*recorder); ok && rec == &c.rec {
+		cp.rec = c.rec
+		header = c.rec.Header().Clone()
+	} else {
+		cp.rec.status = http.StatusOK
+		cp.rec.size = notWritten
+		if c.w != nil {
+			header = c.w.Header().Clone()
+			cp.rec.status = c.w.Status()
+			if c.w.Written() {
+				cp.rec.size = c.w.Size()
+			}
+		}
+	}
+	cp.rec.ResponseWriter = noopWriter{header}
 	cp.w = noUnwrap{&cp.rec}
 	if !c.tsr {
 		params := make(Params, len(*c.params))
